@@ -171,8 +171,14 @@ class Gen:
 
     def comment_text(self, n):
         r = self.r
-        t = "".join(r.choice("abc xyz 012 +-= (){} \t!<@\"'") for _ in range(n))
-        return t.replace("*/", "* /")
+        t = "".join(r.choice("abc xyz 012 +-= (){} \t!<@\"'***/") for _ in range(n))
+        if n and r.random() < 0.35:
+            # a run of stars at the end (`/* note **/`) or inside the text
+            k = r.randrange(len(t) + 1) if r.random() < 0.4 else len(t)
+            t = t[:k] + "*" * r.choice([1, 1, 2, 3, 4, 5]) + t[k:]
+        while "*/" in t:
+            t = t.replace("*/", "* /")
+        return t
 
     def ccomment(self):
         """single-line C comment; value = trimmed text, offset = position of the first character of the text"""
@@ -328,6 +334,97 @@ class Gen:
                 line += self.blank(False)
             lines.append(line)
         return "\n".join(lines), exp, kinds
+
+
+def spec_small(s):
+    """expected tokens [(flag, line, offset, value)] and classes of an input over {'/', '*', 'a', ' ', '\\n'}:
+    words a+, the operators `/` and `*`, `//` comments, `/* */` comments (multi-line: the first line's text is
+    trimmed, the following lines are appended as they are, separated by newlines). Written from the lexical
+    rules alone, not from the implementation."""
+    toks, kinds = [], []
+    opened = False
+    for n, line in enumerate(s.split("\n"), 1):
+        i = 0
+        if opened:
+            flag, ln, off, val = toks[-1]
+            if val:
+                val += "\n"
+            j = line.find("*/")
+            if j < 0:
+                toks[-1] = (flag, ln, off, val + line)
+                continue
+            toks[-1] = (flag, ln, off, val + line[:j])
+            opened = False
+            i = j + 2
+        while True:
+            while i < len(line) and line[i] == " ":
+                i += 1
+            if i >= len(line):
+                break
+            c = line[i]
+            if c == "a":
+                j = i
+                while j < len(line) and line[j] == "a":
+                    j += 1
+                toks.append((STD, n, i, line[i:j]))
+                kinds.append("word")
+                i = j
+            elif c == "/" and line[i + 1:i + 2] == "/":
+                j = i + 2
+                while j < len(line) and line[j] == " ":
+                    j += 1
+                toks.append((COMMENT, n, j, line[j:]))
+                kinds.append("cxxcomment")
+                i = len(line)
+            elif c == "/" and line[i + 1:i + 2] == "*":
+                j = i + 2
+                while j < len(line) and line[j] == " ":
+                    j += 1
+                e = line.find("*/", j)
+                if e < 0:
+                    toks.append((COMMENT, n, j, line[j:].rstrip(" ")))
+                    kinds.append("ccomment-star-multiline")
+                    opened = True
+                    i = len(line)
+                else:
+                    toks.append((COMMENT, n, j, line[j:e].rstrip(" ")))
+                    kinds.append("ccomment-star")
+                    i = e + 2
+            else:
+                toks.append((STD, n, i, c))
+                kinds.append("op")
+                i += 1
+    return toks, kinds
+
+
+def star_corpus():
+    """directed inputs: C comments with runs of 0..5 stars before the terminator and inside the text, one-line
+    and multi-line, plain and doxygen, followed by tokens and lines; (options, input, expected, kinds)"""
+    out = []
+    for k in range(0, 6):
+        st = "*" * k
+        small = ["/*" + st + "*/", "/*" + st + "*/ a", "/* a " + st + "*/ a", "/* a" + st + "*/a", "a /*" + st + "*/ a /* a " + st + "*/\na",
+                 "/*" + st + " a " + st + "*/ a /* a *" + st + "*/ a", "/* a " + st + "\n" + st + "*/ a", "/*" + st + "\n a " + st + "*/ a\n/* a " + st + "*/",
+                 "/* a " + st + "\n a" + st + "\n" + st + " a " + st + "*/ a /*" + st + "*/", "// a " + st + "*/ a\n/*" + st + "*/a", "/*" + st + "/ a */ a", "/*" + st + "/"]
+        for t in small:
+            e, kd = spec_small(t)
+            out.append(("-", t, e, kd))
+        for mk, fl in (("!", DOXY), ("!<", DOXYBACK)):
+            # doxygen forms; the first token of a tokenizer is a plain comment
+            for body, val in ((" " + st, st), (" d " + st, ("d " + st).strip()), (st, st)):
+                if body.startswith("<") or (mk == "!" and body.startswith("<")):
+                    continue
+                t1 = "/*" + mk + body + "*/ x"
+                off = 2 + len(mk) + (len(body) - len(body.lstrip(" ")))
+                out.append(("-", t1, [(COMMENT, 1, off, val), (STD, 1, len(t1) - 1, "x")], ["ccomment-star", "word"]))
+                t2 = "y " + t1 + " /* z " + st + "*/ w"
+                out.append(("-", t2, [(STD, 1, 0, "y"), (fl, 1, 2 + off, val), (STD, 1, 2 + len(t1) - 1, "x"),
+                                      (COMMENT, 1, 2 + len(t1) + 3 + 1, ("z " + st).strip()),
+                                      (STD, 1, len(t2) - 1, "w")],
+                            ["word", "ccomment-star", "word", "ccomment-star", "word"]))
+    out.append(("-", "/** d **/ x /* y ***/ z", [(COMMENT, 1, 2, "* d *"), (STD, 1, 10, "x"), (COMMENT, 1, 15, "y **"),
+                                               (STD, 1, 22, "z")], ["ccomment-star", "word", "ccomment-star", "word"]))
+    return out
 
 
 def parse_tokens(sec):
@@ -603,6 +700,15 @@ def run(ck):
     for n in range(0, 3 if ck.quick else 4):
         for t in itertools.product(alpha, repeat=n):
             reqs.append(("-", "".join(t), None, (), "exhaustive-short"))
+    # C comments and star runs: a directed corpus, then EVERY string up to length 7 over {'/','*','a',' ','\n'},
+    # each with the tokens expected from the lexical rules alone (spec_small)
+    for o, t, e, kd in star_corpus():
+        reqs.append((o, t, e, kd, "comment-stars"))
+    for n in range(0, 8):
+        for t in itertools.product("/*a \n", repeat=n):
+            t = "".join(t)
+            e, kd = spec_small(t)
+            reqs.append(("-", t, e, kd, "exhaustive-comment"))
 
     pairs = [(o, s) for o, s, _, _, _ in reqs]
     impl = run_impl(ck, harness, pairs)
@@ -770,7 +876,8 @@ def run(ck):
 
     ck.assumptions += [
         "M: Model.lean is tied to CxxTokenizer.cxx by differential execution on every run (grammar streams, mutated "
-        ".mfront/.mtest corpus, option sets, all short strings over a special-character alphabet): tokens, flags, "
+        ".mfront/.mtest corpus, option sets, all short strings over a special-character alphabet, a directed corpus "
+        "of C comments with star runs and every string up to length 7 over {/,*,a,blank,newline}): tokens, flags, "
         "line, offset, the state flags and the exact what() text are compared",
         "memory safety / termination of the C++ on arbitrary bytes is NOT implied by the model's totality: it is "
         "supported only by the ASan/UBSan differential runs with a 2 s CPU watchdog per input",
